@@ -133,7 +133,23 @@ def handleCaller (j : Json) : R Json := do
   | "swallow" => pure (jRes2 dest (swallow (awb loopW retries dest r1 data fs σ)))
   | "sidecar" => pure (jRes2 dest (withSidecarL loopW retries dest r1 r2 data mdata fs σ))
   | "iterfail" => pure (jRes2 dest (fin .raised fs))  -- the record source raised: no FS call is made at all
+  | "contentfail" => pure (jRes2 dest (writeSerialised loopW retries dest r1 (.contentFail 0) fs σ))
+  | "contentfail_swallowed" => pure (jRes2 dest (swallow (writeSerialised loopW retries dest r1 (.contentFail 0) fs σ)))
   | _ => throw s!"bad kind {kind}"
+
+/-- text/json wrappers: `ser` = {"done": "<bytes>"} | {"fail": k} -/
+def handleWrap (j : Json) : R Json := do
+  let dest := toCodes (← fldStr j "dest")
+  let r := toCodes (← fldStr j "r")
+  let fs ← parseDir (← fldArr j "fs")
+  let σ ← parseScript (← fldArr j "script")
+  let loopW ← fldBool j "loop"
+  let retries ← fldNat j "retries"
+  let sj ← fld j "ser"
+  let ser : Ser ← match sj.getObjVal? "done" with
+    | .ok d => do pure (Ser.done (toCodes (← d.getStr?)))
+    | .error _ => do pure (Ser.contentFail (← fldNat sj "fail"))
+  pure (jRes dest (writeSerialised loopW retries dest r ser fs σ))
 
 /-- stand-alone `atomic_replace` -/
 def handleReplace (j : Json) : R Json := do
@@ -171,7 +187,7 @@ def handleMon (j : Json) : R Json := do
   | _ => throw s!"bad monitor {m}"
 
 def routes : List (String × (Json → R Json)) :=
-  [("atomic.awb", handleAwb), ("atomic.replace", handleReplace), ("atomic.caller", handleCaller),
+  [("atomic.awb", handleAwb), ("atomic.wrap", handleWrap), ("atomic.replace", handleReplace), ("atomic.caller", handleCaller),
    ("atomic.mon", handleMon)]
 
 end Driver.HAtomic
